@@ -323,10 +323,88 @@ KeyGridLaw(q) ==
        \E rv \in KeyRecvQuick : Len(rv) = n /\ <<KGet(kv)>> \in KeyScripts(TRUE) /\ <<KSet(kv, VInt(7))>> \in KeyScripts(TRUE)
                                 /\ \A k2 \in KeyValsQuick : <<KSet(kv, VInt(7)), KGet(k2)>> \in KeyScripts(TRUE)
 EnumKeys == \E c \in KeyGrid(Quick) : KeyCaseOK(c) /\ Emit(c)
+\* ---------------- B: WHEN the method is looked up - between the lookup and the call the receiver changes (round 4) -----------
+\* "Each implemented method leaves the receiver with exactly the specified contents" quantifies over the state of the receiver
+\* AT THE TIME OF THE CALL.  A method is a value: `a.m` is evaluated first (the lookup), then the arguments, then the call
+\* happens; and the value can be kept (`var f = a.m`) and called later on the same receiver (`f.call(a, ...)`,
+\* `f.apply(a, [...])`, and - this engine binds a method to the array it was read from - `f(...)`).  Whatever is done to the
+\* receiver between the lookup and the call (by an argument expression or by statements in between) the call acts on the
+\* receiver as it is THEN.  A case: store, receiver r, pre = the calls made on the receiver between lookup and call (each
+\* succeeds), the method m with arguments a / callback cb, and the construction form:
+\*   inarg    : r.m((pre[1], ..., pre[n], x1), x2, ...)     x1.. = the call's arguments (a zero-argument pop / shift / reverse /
+\*              toString gets one ignored argument)
+\*   call     : f = r.m ; pre[1] ; ... ; pre[n] ; f.call(r, x1, ...)
+\*   apply    : f = r.m ; pre ... ; f.apply(r, [x1, ...])
+\*   detached : f = r.m ; pre ... ; f(x1, ...)               ECMA-262: this = undefined -> TypeError, nothing changes; the engine's
+\*              documented binding to the receiver: as f.call(r, ...).  Both accepted.
+\* Kinds of intervening change: element-wise in place (push pop shift unshift reverse sort, an element write), removing /
+\* inserting in the middle (splice), truncation and extension through length.
+BEv(m, a, cb) == [m |-> m, a |-> a, cb |-> cb]
+BCb(m) == FnCb(m, <<>>, Undef, FALSE)
+BForms == {"inarg", "call", "apply", "detached"}
+BMutators == {"push", "pop", "shift", "unshift", "reverse", "splice", "sort"}
+BFinals(q) ==
+  {BEv("push", <<VInt(7)>>, NoCb), BEv("push", <<VInt(7), VStr(U("b"))>>, NoCb), BEv("push", <<>>, NoCb), BEv("pop", <<>>, NoCb),
+   BEv("shift", <<>>, NoCb), BEv("unshift", <<VInt(7)>>, NoCb), BEv("unshift", <<VInt(7), AR>>, NoCb), BEv("reverse", <<>>, NoCb),
+   BEv("concat", <<VInt(7)>>, NoCb), BEv("concat", <<>>, NoCb), BEv("join", <<>>, NoCb), BEv("join", <<VStr(U("-"))>>, NoCb),
+   BEv("toString", <<>>, NoCb), BEv("slice", <<VInt(1)>>, NoCb), BEv("slice", <<>>, NoCb), BEv("splice", <<VInt(1), VInt(1)>>, NoCb),
+   BEv("splice", <<VInt(0), VInt(0), VInt(7)>>, NoCb), BEv("indexOf", <<N1>>, NoCb), BEv("lastIndexOf", <<N1>>, NoCb),
+   BEv("includes", <<N1>>, NoCb), BEv("sort", <<>>, ValCb("none", Undef)), BEv("sort", <<>>, CmpCb("undef"))}
+  \cup {BEv(m, <<>>, BCb(m)) : m \in IterMethods}
+  \cup {BEv("reduce", <<VInt(100)>>, BCb("reduce")), BEv("reduceRight", <<>>, BCb("reduceRight"))}
+BPreInPlace == {BEv("push", <<VInt(8)>>, NoCb), BEv("pop", <<>>, NoCb), BEv("shift", <<>>, NoCb), BEv("unshift", <<VInt(8)>>, NoCb),
+                BEv("reverse", <<>>, NoCb), BEv("sort", <<>>, ValCb("none", Undef)), BEv("[]=", <<VInt(0), VInt(8)>>, NoCb)}
+BPreMiddle  == {BEv("splice", <<VInt(0), VInt(1)>>, NoCb), BEv("splice", <<VInt(1), VInt(2)>>, NoCb), BEv("splice", <<VInt(1), VInt(0), VInt(8)>>, NoCb),
+                BEv("splice", <<>>, NoCb)}
+BPreLength  == {BEv(".length=", <<VInt(0)>>, NoCb), BEv(".length=", <<VInt(1)>>, NoCb), BEv(".length=", <<VInt(6)>>, NoCb)}
+BPreEvs == BPreInPlace \cup BPreMiddle \cup BPreLength
+BPreClass(ev) == IF ev \in BPreInPlace THEN "inplace" ELSE IF ev \in BPreMiddle THEN "middle" ELSE "length"
+BPreQuick == {<<>>} \cup {<<e>> : e \in BPreEvs}
+             \cup {<<BEv("splice", <<VInt(0), VInt(1)>>, NoCb), BEv("push", <<VInt(8)>>, NoCb)>>, <<BEv("push", <<VInt(8)>>, NoCb), BEv(".length=", <<VInt(1)>>, NoCb)>>}
+BPrePairs == {<<e, f>> : e \in BPreEvs, f \in BPreEvs}
+BRecvQuick == {<<>>, <<N1>>, <<N9, S10, N2, N1>>}
+BRecv(q) == IF q THEN BRecvQuick ELSE BRecvQuick \cup {<<N1, N2>>, <<N2, N1, N9>>, <<UN, N1, AR, N2, N1>>}
+BindCase(rv, pre, f, form) == [ty |-> "bind", store |-> MkStore(rv), r |-> 1, pre |-> pre, m |-> f.m, a |-> f.a, cb |-> f.cb, form |-> form]
+BindGrid(q) ==
+  {BindCase(rv, pre, f, form) : rv \in BRecv(q), pre \in BPreQuick, f \in BFinals(q), form \in BForms}
+  \cup (IF q THEN {} ELSE {BindCase(rv, pre, f, form) : rv \in BRecv(q), pre \in BPrePairs, f \in {g \in BFinals(q) : g.m \in BMutators}, form \in {"inarg", "call"}})
+\* the form is expressible: the mutation sits inside the first argument, so there must be one (or the method ignores it)
+BInargOK(c) == Len(c.a) >= 1 \/ c.cb.kind = "fn" \/ c.m \in {"pop", "shift", "reverse", "toString"}
+RECURSIVE BPreOK(_, _, _, _)
+BPreOK(st, r, pre, k) == IF k > Len(pre) THEN TRUE
+                         ELSE /\ Supported(pre[k].m, st, r, pre[k].a, pre[k].cb)
+                              /\ LET x == Call(pre[k].m, st, r, pre[k].a, pre[k].cb, {}) IN x.out.o = "value" /\ BPreOK(x.store, r, pre, k + 1)
+RECURSIVE BPreStore(_, _, _, _)
+BPreStore(st, r, pre, k) == IF k > Len(pre) THEN st ELSE BPreStore(Call(pre[k].m, st, r, pre[k].a, pre[k].cb, {}).store, r, pre, k + 1)
+BindOK(c) == /\ (c.form = "inarg" => BInargOK(c)) /\ BPreOK(c.store, c.r, c.pre, 1)
+             /\ Supported(c.m, BPreStore(c.store, c.r, c.pre, 1), c.r, c.a, c.cb)
+\* the quick sub-grid contains every class of the family (a dropped class is a Machinery failure, not silence)
+BindGridLaw(q) ==
+  LET QG == {c \in BindGrid(TRUE) : BindOK(c)} IN
+  /\ (~q => BindGrid(TRUE) \subseteq BindGrid(FALSE))
+  /\ {"inplace", "middle", "length"} = {BPreClass(e) : e \in BPreEvs}
+  /\ \A form \in BForms : \A e \in BPreEvs : \A f \in BFinals(q) :            \* every form x every intervening change x every method, on a receiver of length >= 4
+       (form # "inarg" \/ BInargOK(BindCase(<<>>, <<>>, f, form))) =>
+         \E c \in QG : c.form = form /\ c.pre = <<e>> /\ c.m = f.m /\ c.a = f.a /\ c.cb = f.cb /\ Len(c.store[1]) >= 4
+  /\ \A form \in BForms : \A mm \in BMutators \cup IterMethods \cup {"concat", "slice", "join", "indexOf", "includes", "reduce"} :
+       \E c \in QG : c.form = form /\ c.m = mm /\ c.pre = <<>>                                            \* the control: nothing in between
+  /\ \A n \in {0, 1, 4} : \A e \in BPreEvs : \E c \in QG : Len(c.store[1]) = n /\ c.pre = <<e>> /\ c.m = "push"
+  /\ \E c \in QG : Len(c.pre) = 2
+BindLaw(c) ==
+  LET st == BPreStore(c.store, c.r, c.pre, 1)
+      res == Call(c.m, st, c.r, c.a, c.cb, {})
+  IN /\ BindOK(c) /\ StoreOK(st) /\ Len(st) = Len(c.store)
+     /\ \A i \in 1..Len(st) : (i # c.r => st[i] = c.store[i] /\ res.store[i] = c.store[i])       \* frame: only the receiver changes
+     /\ res.out.o \in {"value", "throw"} /\ StoreOK(res.store)
+     /\ (c.m = "push" => res.store[c.r] = st[c.r] \o c.a /\ res.out.v = VInt(Len(st[c.r]) + Len(c.a)))   \* on the receiver as it is at the call
+     /\ (c.m = "unshift" => res.store[c.r] = c.a \o st[c.r])
+     /\ (c.m = "pop" /\ st[c.r] # <<>> => res.store[c.r] = SubSeq(st[c.r], 1, Len(st[c.r]) - 1) /\ SameX(res.out.v, st[c.r][Len(st[c.r])]))
+     /\ (c.m = "shift" /\ st[c.r] # <<>> => res.store[c.r] = Tail(st[c.r]) /\ SameX(res.out.v, st[c.r][1]))
+EnumBind == \E c \in {d \in BindGrid(Quick) : BindOK(d)} : Emit(c)      \* (the filter is a set: inside an action TLC explores both sides of a disjunction)
 EnumRW == \E g \in RWGrid(Quick) : RWOk(g) /\ Emit([ty |-> "ta", evs |-> RWEvs(g), fam |-> "rw"])
 Parts == IF "C17_PARTS" \in DOMAIN IOEnv THEN IOEnv.C17_PARTS ELSE "all"          \* development switch: anything but "all" = this family only
-EnumNext == ph = "start" /\ (IF Parts = "key" THEN EnumKeys ELSE IF Parts # "all" THEN EnumRW
-                              ELSE (EnumPlain \/ EnumCallbacks \/ EnumSort \/ EnumTA \/ EnumRW \/ EnumKeys))
+EnumNext == ph = "start" /\ (IF Parts = "key" THEN EnumKeys ELSE IF Parts = "bind" THEN EnumBind ELSE IF Parts # "all" THEN EnumRW
+                              ELSE (EnumPlain \/ EnumCallbacks \/ EnumSort \/ EnumTA \/ EnumRW \/ EnumKeys \/ EnumBind))
 EnumEmit == ph = "start" \/ PrintT(ToJson(cur))
 
 \* ---------------- Laws of the references (INVARIANT LawsHold in the Enum configuration) ------------------
@@ -425,8 +503,9 @@ KeyLawFrom(c, k, ks, st) ==
      /\ \A i \in 1..Len(x.ks.pr) : KeyIndex(x.ks.pr[i].n) < 0
      /\ KeyLawFrom(c, k + 1, x.ks, st)
 KeyLaw(c) == KeyCaseOK(c) /\ KeyLawFrom(c, 1, [el |-> c.store[c.r], pr |-> <<>>], c.store)
-LawsHold == CASE ph = "start" -> CodecLaws /\ RWLaw(Quick) /\ KeyGridLaw(Quick)
-              [] ph = "case" -> IF cur.ty = "call" THEN CallLaw(cur) ELSE IF cur.ty = "key" THEN KeyLaw(cur) ELSE TALaw(cur)
+LawsHold == CASE ph = "start" -> CodecLaws /\ RWLaw(Quick) /\ KeyGridLaw(Quick) /\ BindGridLaw(Quick)
+              [] ph = "case" -> IF cur.ty = "call" THEN CallLaw(cur) ELSE IF cur.ty = "key" THEN KeyLaw(cur)
+                                ELSE IF cur.ty = "bind" THEN BindLaw(cur) ELSE TALaw(cur)
               [] OTHER -> TRUE
 
 \* ---------------- the array store as a state machine (INIT SMInit, NEXT SMNext, INVARIANT SMInv) -----------------
@@ -554,9 +633,33 @@ KeyRun(c, k, ks) ==
                                                      ELSE IF ~KeyPropsOK(o, x.ks) THEN "properties" ELSE "read-by-name", x)
           ELSE KeyRun(c, k + 1, cands[CHOOSE j \in good : \A j2 \in good : j <= j2].ks)
 KeyVerdict(c) == KeyRun(c, 1, [el |-> c.store[c.r], pr |-> <<>>])
+\* family B: rc = [id, ty = "bind", store, r, pre, m, a, cb, form, obs = [pre |-> <<obs of pre[k]>>, fin |-> obs of the call]]
+\* (form inarg: only the results of the intervening calls are observable, the arrays are seen after the whole expression)
+BV(v, at) == [v |-> v.v, dev |-> v.dev, why |-> v.why, at |-> at, exp |-> v.exp, expstore |-> v.expstore]
+RECURSIVE BindRun(_, _, _)
+BindRun(c, k, st) ==
+  IF k > Len(c.pre)
+  THEN LET fc == [m |-> c.m, store |-> st, r |-> c.r, a |-> c.a, cb |-> c.cb]
+           o == c.obs.fin
+           v == CallVerdict(fc, o)
+           unbound == /\ c.form = "detached" /\ o.out.o = "throw" /\ o.out.cls = "TypeError" /\ o.log = <<>>      \* ECMA-262: this = undefined
+                      /\ Len(o.store) = Len(st) /\ \A i \in 1..Len(st) : SameSeq(o.store[i], st[i])
+       IN IF v.v # "pass" /\ ObsOK(o) /\ unbound THEN BV([v EXCEPT !.v = "pass", !.why = ""], k) ELSE BV(v, k)
+  ELSE LET ev == c.pre[k]
+           pc == [m |-> ev.m, store |-> st, r |-> c.r, a |-> ev.a, cb |-> ev.cb]
+           ref == Call(ev.m, st, c.r, ev.a, ev.cb, {})
+           o == c.obs.pre[k]
+       IN IF c.form = "inarg"
+          THEN IF (o.out.o = "value" => ObsTypeOK(o.out.v)) /\ OutOK(o.out, ref.out) THEN BindRun(c, k + 1, ref.store)
+               ELSE BV([v |-> "violation", dev |-> "", why |-> "intervening-result", exp |-> ref.out, expstore |-> ref.store], k)
+          ELSE LET v == CallVerdict(pc, o) IN IF v.v = "pass" THEN BindRun(c, k + 1, ref.store) ELSE BV(v, k)
+BindVerdict(c) == IF ~BindOK(c) THEN BV([v |-> "unsupported", dev |-> "", why |-> "", exp |-> ValOut(Undef), expstore |-> c.store], 0)
+                  ELSE BindRun(c, 1, c.store)
 JudgeInit == /\ rec_i \in 1..Len(Recs) /\ ph = "judge" /\ cur = <<>> /\ Idle
              /\ LET rc == Recs[rec_i]
-                IN IF rc.ty = "key"
+                IN IF rc.ty = "bind"
+                   THEN LET v == BindVerdict(rc) IN PrintT(ToJson([id |-> rc.id, v |-> v.v, dev |-> v.dev, why |-> v.why, at |-> v.at, exp |-> v.exp, expstore |-> v.expstore]))
+                   ELSE IF rc.ty = "key"
                    THEN LET v == KeyVerdict(rc) IN PrintT(ToJson([id |-> rc.id, v |-> v.v, dev |-> v.dev, why |-> v.why, at |-> v.at, exp |-> v.exp, expstore |-> v.expstore]))
                    ELSE LET v == CallVerdict(rc, rc.obs) IN PrintT(ToJson([id |-> rc.id, v |-> v.v, dev |-> v.dev, why |-> v.why, exp |-> v.exp, expstore |-> v.expstore]))
 JudgeNext == UNCHANGED vars
